@@ -35,7 +35,9 @@ def gen_periods(n, r):
            '18446744073709551615s1s', '18446744073709551614s1s', '1s18446744073709551615s', '9223372036854775808s9223372036854775808s',
            '307445734561825860m', '307445734561825861m', '5124095576030431h', '5124095576030432h', '213503982334601d', '213503982334602d',
            '30500568904943w', '30500568904944w', '99999999999999999999999999s', '18446744073709551615w', '4294967296w4294967296w',
-           '1d' * 200, '9' * 19 + 's', '9' * 20 + 's', '0' * 50 + '7d']
+           '1d' * 200, '9' * 19 + 's', '9' * 20 + 's', '0' * 50 + '7d',
+           # integers with leading zeros: as many digits as one likes, the value is what counts
+           '018446744073709551615s', '000000000000000000005s', '0' * 21 + 's', '1h' + '0' * 20 + '90m', '0' * 19 + '1w', '0' * 20 + '1w', '0' * 21 + '1w', '00018446744073709551616s']
     units = 'smhdw'
     while len(out) < n:
         k = r.random()
@@ -234,6 +236,11 @@ def hazards(d):
         for per in ('10s', '2s'):
             with_('ratelimit:number=2^%d%s:period=small' % (num.bit_length() - 1, '' if num & (num - 1) == 0 else '+'), 'rate limit %s per %s' % (num, per),
                   rate_limit=[{'name': 'r', 'number': C.Raw(str(num)), 'period': per}], endpoint=[dict(b['endpoint'][0], rate_limits=['r'])])
+    # a short limit next to one whose period is close to the largest representable ones: the requests after the first one meet a non-empty log
+    for per in ('15250284452472w', '30500568904943w', '9223372036854775807s', '9223372036854775808s', '18446744073709551615s'):
+        with_('ratelimit:short+huge-period', 'limits 20 per 1s and 300 per %s' % per,
+              rate_limit=[{'name': 'r', 'number': 20, 'period': '1s'}, {'name': 'h', 'number': 300, 'period': per}],
+              endpoint=[dict(b['endpoint'][0], rate_limits=['r', 'h'])])
     with_('ratelimit:several-with-zero', 'two limits, one with number 0', rate_limit=[{'name': 'r', 'number': 5, 'period': '2s'}, {'name': 'z', 'number': 0, 'period': '3s'}],
           endpoint=[dict(b['endpoint'][0], rate_limits=['r', 'z'])])
     # durations in settings
